@@ -31,6 +31,10 @@ THEOREMS = [
     'IblVerif.C08.adc_by_position_counterexample',
     'IblVerif.C08.dense_layouts',
     'IblVerif.C08.trace_header_eq',
+    'IblVerif.C08.geometry_program',
+    'IblVerif.C08.geometry_program_pure',
+    'IblVerif.C08.program_order_matters_swapped',
+    'IblVerif.C08.program_order_matters',
 ]
 RULE = ('site tables drawn from the NP1 (2x480), NP2.1 (2x640), NP2.4 (4 shanks x 2x640) and NPultra (8x48) grids: '
         'n in {0,1..8, 9..64, 65..383, 383, 384, 385..400} sites (boundary-biased), selections dense / contiguous bank / '
@@ -38,7 +42,7 @@ RULE = ('site tables drawn from the NP1 (2x480), NP2.1 (2x640), NP2.4 (4 shanks 
         'occasional duplicated site and 0 flags; rendered as snsShankMap, as snsGeomMap under the SpikeGLX convention, both keys, '
         'off-grid geometry maps, malformed tuples, no map, unknown probe type; sort on/off; NP2.4_shank key absent / present / '
         'empty shank; every case is run through geometry_from_meta(return_index=True) (a tenth also through a written .meta '
-        'file and read_geometry) and the Lean model, all nine keys + the index list compared exactly; plus '
+        'file and read_geometry; a seventh also against the statement program GeomStages.run of the model) and the Lean model, all nine keys + the index list compared exactly; plus '
         'split_trace_header of those geometries, _map_channels_from_meta on random strings over "0-9:(),", '
         'rc2xy/xy2rc on random on/off-grid integers, all trace_header/dense_layout/split_trace_header/adc_shifts arguments. '
         'plus an exhaustive box (all ordered selections of 1..2 (quick) / 1..3 (thorough) sites of a 2x2x2 grid corner). A case is non-trivial when it has >= 2 sites; distinct by its full description (generator index, sizes, first sites).')
@@ -60,19 +64,40 @@ ASSUMPTIONS = [
     '(the code does not read that key at all) and theorem adc_by_channel_partial carries the hypothesis',
     'np.lexsort is stable (ties keep file order); probe versions are the six tags of MAJOR_VERSION or None',
     'sample_shift is compared as the exact numerator k of k / n_cycles (float64 division re-done in Python must reproduce the value bit for bit)',
+    'translator tie: tests of the source that are not integer comparisons are fixed per item (version == "NPultra" true / false, sort true / false, '
+    'return_index = True, the no-map test false); `version` stands for np.floor(version); a broken or unavailable tie is never a violation (the '
+    'correspondence is escalated to thorough depth and decides)',
 ]
 TRUSTED = ['np.lexsort / NumPy fancy indexing / boolean-mask assignment semantics as transcribed in Model/Geometry.lean, Model/Adc.lean',
-           "Python re: '[0-9]*:[0-9]*:[0-9]*:[0-9]*' scanned leftmost, greedy, non-overlapping (transcribed as findTuples; compared on random strings each run)"]
+           "Python re: '[0-9]*:[0-9]*:[0-9]*:[0-9]*' scanned leftmost, greedy, non-overlapping (transcribed as findTuples; compared on random strings each run)",
+           'translator tie: harness/pyfn2lean.py and the regular expressions of harness/tiespecs/c08.py that read array statements as events; the NumPy meaning '
+           'given to each event in Model/GeomStagesC08.lean (step / denseStep / runMapPlan / runSplit / runLoopBody: dict copy, in-place +=, dict.update with the result of '
+           'xy2rc / rc2xy, np.c_ + np.lexsort with the last key primary, {k: v[idx]} over every key, np.tile / repeat); the statement program is also run against the real '
+           'code (op geomprog)']
 LEVEL_TEXT = ('Lean 4 theorems for every site table of <= NC sites in any order, both encodings, sorted/unsorted, every shank: parse lists '
               'each tuple once; the sort is a permutation ordered by (shank, row, -col, original index) that re-indexes all nine keys jointly; '
               'rc2xy/xy2rc inverse on every grid; shank-map and geometry-map strings give identical geometries (NP1/NP2/NP2.4, SpikeGLX convention); '
               'split geometry = restriction of the parent (sort commutes with restriction); adc_shifts loop = closed form, each ADC serves its '
-              'channels at distinct evenly spaced delays; dense layouts = closed forms. Model tied to the real code by an exact differential run.')
+              'channels at distinct evenly spaced delays; dense layouts = closed forms; geometry_from_meta = the run of its statement program '
+              '(order of copy / NP1 flip / +20 / conversion / ADC columns by position / shank split / ind / lexsort keys / joint gather) from ANY '
+              'leftover state (purity). Model tied to the real code by an exact differential run AND by a translator tie: the decision / '
+              'statement-order skeleton of adc_shifts, _map_channels_from_meta, _split_geometry_into_shanks, split_trace_header, geometry_from_meta and '
+              'dense_layout is regenerated from the source text on every run and proved equal to the model for all arguments.')
 LEVEL_NOTE = ('partial: "ADC attributes depend only on the original channel number" is proved for prefix saved subsets only (known finding, '
-              'counterexample theorem); ADC loop and dense layouts are kernel evaluations over the complete 384-channel tables (decide +kernel), '
-              'everything else is by induction for all inputs; trusted: Lean kernel, harness, NumPy lexsort stability, float32 exactness below 2^24')
+              'counterexample theorem); ADC loop and dense layouts are kernel evaluations over the complete 384-channel tables (decide +kernel; '
+              'the tie of dense_layout evaluates the SOURCE\'s tile / repeat statements the same way), everything else is by induction / case analysis for all inputs. '
+              'Tie (IblVerif.Tie.C08, 16 theorems): rc2xy / xy2rc expressions, ADC number, pointwise fix-ups; per-version (adc_channels, n_cycles) and the '
+              'mask assignment of the loop body; which map key is scanned and the field positions; both shank restrictions gather EVERY key; the whole '
+              'statement list of geometry_from_meta (site-table branch, sort on / off) = GeomStages.stages, whose run = geometryFromMeta; dense_layout '
+              'for versions 1 / 2 / 2.4 / NPultra and every nshank. NOT covered by the tie (correspondence only): the regular-expression scan and np.float32 '
+              'conversion of the tuples, the closed form (i % 2a) // 2 of the sampling rank (the source has only the loop; model loop = closed form by kernel '
+              'evaluation), the no-map default branch of geometry_from_meta, _get_neuropixel_version_from_meta (tied under C09), NumPy dtype / aliasing behaviour. '
+              'Purity is proved for the local variables of the program; a cache outside the function (seeded change C08_g) is only caught by the call-sequence '
+              'checks of the correspondence. trusted: Lean kernel, harness, NumPy lexsort stability, float32 exactness below 2^24')
 TECHNIQUE = ('Lean 4: generic stable insertion sort (Perm / Sorted / stability / commutes with filter and key-preserving maps), list induction, '
-             'omega over generated grid and ADC constants, decide +kernel over complete tables; exact correspondence run on generated metadata')
+             'omega over generated grid and ADC constants, decide +kernel over complete tables; a small-step interpreter of the statement programs '
+             '(Model/GeomStagesC08.lean) proved equal to the functional model; translator tie (source text -> Lean event lists -> theorems, re-proved on every run); '
+             'exact correspondence run on generated metadata')
 
 # ---------------------------------------------------------------------------------------------
 GRIDS = {   # family -> (n shanks, n columns, n rows) of the site grid in shank-map coordinates
@@ -676,6 +701,11 @@ def correspondence(ctx):
                 (('duplicate-site',) if c['dup'] else ()) + ((('form:shank=' + fm['shank']),) if c['shank_key'] is not None else ()) + \
                 (('cols-present=' + ''.join(str(x) for x in sorted({t[1] for t in c['sites']})),) if 0 < n and FAMILY[c['version']] != 'NPultra' else ())
             add('geom', case_desc(c), line, res, nontrivial=(n >= 2), tags=tags)
+            # the statement program of the model (GeomStages.run on GeomStages.stages) on the same metadata: the interpreter that
+            # Tie/C08.lean runs the source's event list through is compared with the real code as well
+            if k % 7 == 3 and n >= 1 and c['enc'] != 'none':
+                add('geomprog', case_desc(c, 'geomprog'), 'geomprog ' + ' '.join(toks) + f" {int(c['sort'])}", res,
+                    nontrivial=(n >= 2), tags=('geomprog', 'enc=' + c['enc'], 'outcome=' + outcome))
             # the SAME metadata object again with the other sort flag (what a Reader opened with sort=False after one with sort=True sees)
             if k % 5 == 2:
                 c2_ = dict(c, sort=not c['sort'])
